@@ -42,7 +42,7 @@ def doProx (aux : Bool) (l : Line) : Option String := do
   -- `prox`: the bodies of `prog`; `aux` (round 4): the bodies of `auxProg`
   -- (`_abs_pow_ufunc`, gradient operators); an id unknown to the requested table is `bad-op`
   let P : Stmt Float ←
-    if aux && name == "rosen" then some (rosenProg par.a n)
+    if aux && name == "rosen" then some (rosenFixed par.a n)
     else if aux then (parseAuxId name flags).map (auxProg (floatFns n mc w p) (floatAux n mc) par)
     else (parseId name flags).map (prog (floatFns n mc w p) par)
   -- `iters=K` (aliased only): K aliased calls on the same store (`aliasedCalls`)
